@@ -26,7 +26,7 @@ add("C01", 'xenum+seqx', 'exploration',
     'DESIGN.md 4 C01, 9.2b')
 
 add("C03", 'xenum+guard', 'exploration',
-    'bounded exhaustive enumeration of byte strings (all strings over a 12-byte alphabet up to length 4/5; every truncation, extension, length-field value up to 2^62-1 in every encoding, byte substitution and bit flip of valid messages; boundary (r,s) pairs as raw, DER and inside requests; correctly encrypted and signed requests with malformed inner plaintexts and with unusual padded origin fields; separator characters of textual parts singly and doubled; length-prefixed parts resized consistently) against 36 byte-consuming entry points, each call guarded for panic, allocation and termination in single-threaded worker subprocesses under an address-space limit',
+    'bounded exhaustive enumeration of byte strings (all strings over a 12-byte alphabet up to length 4/5; every truncation, extension, length-field value up to 2^62-1 in every encoding, byte substitution and bit flip of valid messages; boundary (r,s) pairs as raw, DER and inside requests; correctly encrypted and signed requests with malformed inner plaintexts and with unusual padded origin fields; well-formed SubjectPublicKeyInfo of foreign key types; separator characters of textual parts singly and doubled; length-prefixed parts resized consistently) against 36 byte-consuming entry points, each call guarded for panic, allocation and termination in single-threaded worker subprocesses under an address-space limit',
     'For every target and every generated input: no panic (recovered and reported), no fatal runtime error (a worker killed by the runtime is attributed to the journaled case), TotalAlloc delta within 1 MiB + 64*len (steps) / 64 KiB + 16*len (decoders), and return within the watchdog. About 0.8M calls quick, several million thorough.',
     'Arbitrary bytes are represented by the structured generators, not by all 256^n strings; allocation is measured per call with runtime.MemStats in a GOMAXPROCS=1 worker; non-termination means no progress of a worker for 60 s in the sweep and no return within 120 s in the isolated confirmation.',
     'DESIGN.md 4 C03, 9.2')
@@ -38,15 +38,15 @@ add("C10", "xenum", "exploration",
 add("C11", "xenum", "exploration",
     "bounded exhaustive enumeration of (type x key x input x salt x batch size x ordered pairs of blinds) with caller-supplied blinds plus all shipped interop vectors, comparing request and token bytes across repetitions, interleaved unrelated calls and blinds",
     "Request creation must be a pure function of its arguments and the finalized token identical under every blind and on every run; the 3 Rust vectors and the 20 Go vectors must reproduce byte for byte (request, decoded response finalization, token).",
-    "Blind alphabets are boundary scalars plus DRBG values, for RSA also N-1 and respellings of one integer with leading zero bytes (same request required); degenerate blinds (nil, empty, zero, order/modulus, wrong lengths and counts) must give the same outcome on every call; 'every run' is observed as repeated in-process issuance under different issuer randomness.",
+    "Blind alphabets are boundary scalars plus DRBG values, for RSA also N-1 and respellings of one integer with leading zero bytes (same request required); a blind repeated within a batch; degenerate blinds (nil, empty, zero, order/modulus, wrong lengths and counts) must give the same outcome on every call; 'every run' is observed as repeated in-process issuance under different issuer randomness.",
     "DESIGN.md 4 C11")
 add("C18", "xenum", "exploration",
-    "bounded exhaustive enumeration of RSA public keys (every modulus bit length 16..2100/4104 x 4 value patterns x 6 exponents, plus 10 exponents whose DER ends in bytes that text handling trims), VOPRF keys and name keys against a hand-written DER/TLV reference and independent key-id computation",
+    "bounded exhaustive enumeration of RSA public keys (every modulus bit length 16..2100/4104 x 4 value patterns x 9 exponents (incl. 0, 1, 2), plus 10 exponents whose DER ends in bytes that text handling trims), VOPRF keys and name keys against a hand-written DER/TLV reference and independent key-id computation",
     "Both SPKI forms round-trip; the RSASSA-PSS form is byte-identical to hand-assembled DER with the literal RFC 9578 AlgorithmIdentifier; each issuer TokenKeyID equals SHA-256 of the independently serialised public key; requests of types 1/2/5 carry its last byte; type-3 requests carry SHA-256 of the name key bytes the issuer published (hand-built for every key id x KEM x KDF x AEAD), also when one client object uses several name keys in turn, and a decoded name key serialises back to those bytes.",
     "Trusted: the hand DER encoder and the 63-byte AlgorithmIdentifier literal in checks/c18; crypto/elliptic for the P-384 public key reference.",
     "DESIGN.md 4 C18")
 add("C20", 'xenum', 'exploration',
-    'exhaustive enumeration of origin-name lengths 0..65535 x 4 content patterns through the padding functions (hook) and lengths 0..130 / 0..4128 x 3 content patterns (letters, interior zero bytes, leading zero bytes) end to end through the real client and issuer with up to thirteen neighbour names per name',
+    'exhaustive enumeration of origin-name lengths 0..65535 x 4 content patterns through the padding functions (hook) and lengths 0..130 (plus ten lengths up to 65000) / 0..4128 x 3 content patterns (letters, interior zero bytes, leading zero bytes) end to end through the real client and issuer with up to thirteen neighbour names per name',
     'unpad(pad(name)) == name and |pad(name)| == 32*max(1,ceil(n/32)) for every length; the registered name is served and every neighbour (last byte changed, shortened, extended, padding-like suffixes, leading zero bytes added or removed) is refused; the wire length equals base + 32*blocks for every request.',
     'Names are drawn from content patterns per length; names that cannot be marshalled (> ~65200 bytes) are outside the end-to-end part.',
     'DESIGN.md 4 C20, 9.2b')
@@ -62,7 +62,7 @@ add("C08", 'seqx', 'model_checking',
     'Client secrets, index keys and blinds are boundary-scalar alphabets; the reference (RFC 9380 XMD, HKDF-SHA-384) is in checks/c08/ref.go.',
     'DESIGN.md 4 C08, 9.2b')
 add("C09", 'seqx', 'model_checking',
-    'three searches over the real RateLimitedAttester stepped in lock-step with a two-map reference model: breadth-first to a fix-point with the cache cloned through the verif hook (one client + unverified U with anonymous ids {x,y,empty}; two clients + U), every full-length event sequence (depth 4/5) on one persistent attester object without state merging, and one long history per client with 2..130 (600) origins (bind all, repeat, foreign anonymous ids, repeat)',
+    'three searches over the real RateLimitedAttester stepped in lock-step with a two-map reference model: breadth-first to a fix-point with the cache cloned through the verif hook (one client + unverified U with anonymous ids {x,y,empty}; two clients + U), every full-length event sequence (depth 4/5) on one persistent attester object without state merging, and one long history per client with 2..130 (600) origins (bind all, repeat, foreign anonymous ids, repeat); the never-verified client is -A',
     'In every reachable state every enabled event (verify, verify with bad signature / wrong blind, finalize for each client x origin x anonymous id) is applied; verdict, returned ID and the accepted-bindings map must equal the model; rejected calls leave bindings in force; unverified clients are always refused; whatever the attester object remembers outside the cache cannot change a verdict.',
     'State merging assumes decisions depend on the dumped maps and the arguments only (the third search does not); event arguments are precomputed honest byte strings.',
     'DESIGN.md 4 C09, 9.2b')
@@ -72,20 +72,20 @@ add("C14", "xenum+envx", "exploration",
     "Arithmetic equivalence is reached only through the boundary alphabets (limb patterns, q*L+r bands): a wrong carry needing an operand outside them is invisible. This is the thinnest claim of the set.",
     "DESIGN.md 4 C14")
 add("C15", 'xenum+seqx', 'exploration',
-    'bounded exhaustive enumeration of seeds x blinds (incl. two found by search whose scalar / inverse scalar is below 2^240) x contexts (incl. lengths at SHA-512 block and padding boundaries in two variants) x messages, all ordered pairs of (blind, context), and every call-order sequence of length 2..3 over four contexts on ONE key object, blind and message buffer (arguments must stay unchanged, same context twice gives the same signature, plain Sign afterwards equals crypto/ed25519), against a math/big Edwards reference and three independent verifiers',
+    'bounded exhaustive enumeration of seeds x blinds (incl. two found by search whose scalar / inverse scalar is below 2^240) x contexts (incl. lengths at SHA-512 block and padding boundaries in two variants) x messages, all ordered pairs of (blind, context), and every call-order sequence of length 2..3 over four contexts on ONE key object, blind and message buffer (arguments must stay unchanged, same context twice gives the same signature, plain Sign afterwards equals crypto/ed25519; then blind / context / key buffers changed in place with a failing call in between), against a math/big Edwards reference and three independent verifiers',
     'Blinded key == compress(r*A) with r = SHA-512(blind||00||ctx)[:32] mod L; signatures deterministic and independent of what was signed before, valid under the blinded key for crypto/ed25519, this package and a math/big RFC 8032 verifier, invalid under A; unblind inverts blind; blinding commutes; different blind or context gives a different key.',
     "Seeds, blinds, contexts are fixed alphabets; blinds are passed as exact-capacity slices (aliasing is C16's subject).",
     'DESIGN.md 4 C15, 9.2b')
 
 add("C06", 'xenum', 'exploration',
-    "bounded exhaustive enumeration of (request, blind, client key) inputs to the real attester: every single-bit flip of each of the six inputs of 2/4 honest triples (also with the request object's encoding cached, also with the client already registered), every signature length 0..97, 9x9 boundary (r,s) pairs, foreign signatures / blinds / keys, malformed key encodings, blinds that are not scalars (2^384-1, 64 bytes, 49 bytes), ciphertexts of 65535/65536/65537 bytes; reference verdict from crypto/ecdsa and an independent key-blinding reference; cache watched for writes",
+    "bounded exhaustive enumeration of (request, blind, client key) inputs to the real attester: every single-bit flip of each of the six inputs of 2/4 honest triples (also with the request object's encoding cached, also with the client already registered), every signature length 0..97, 9x9 boundary (r,s) pairs, foreign signatures / blinds / keys, malformed key encodings, blinds that are not scalars (2^384-1, 64 bytes, 49 bytes), fields of non-wire lengths, the next request written over the accepted one in the caller's buffers, ciphertexts of 65535/65536/65537 bytes; reference verdict from crypto/ecdsa and an independent key-blinding reference; cache watched for writes",
     'VerifyRequest returns nil exactly when the signature verifies under the request key over the hand-rebuilt message and the request key equals the client key multiplied by the reference blinding factor; every rejected request leaves the cache dump and Put count unchanged.',
     'Honest triples use boundary-scalar secrets and blinds; requests are handed over as structs as the API takes them.',
     'DESIGN.md 4 C06, 9.2b')
 add("C12", "xenum", "exploration",
     "bounded exhaustive enumeration of curves x signing scalars x blind encodings x contexts x digest lengths and all pairs of blinds/contexts, against an RFC 9380 expand_message_xmd / hash_to_field reference and crypto/elliptic / crypto/ecdsa",
     "Blinded public key == factor*pk with the independently recomputed factor on all four curves; blinded signatures verify under the blinded key (this package and crypto/ecdsa) and not under the unblinded key; unblind inverts blind; two blinds commute; changing exactly the blind or exactly the context changes the key; encodings of the same blind scalar give the same key.",
-    "Scalars, blinds (incl. leading-zero, >= N and over-long encodings), contexts and digests come from boundary alphabets; P-224 is pinned to (SHA-256, L=32) as in the code, no RFC suite fixes it.",
+    "Scalars, blinds (incl. zero, leading-zero, >= N and over-long encodings; one signature object is shown to all verifiers in turn), contexts and digests come from boundary alphabets; P-224 is pinned to (SHA-256, L=32) as in the code, no RFC suite fixes it.",
     "DESIGN.md 4 C12")
 add("C13", "xenum+envx", "exploration",
     "bounded exhaustive differential enumeration against crypto/ecdsa: 18x18 boundary (r,s) pairs around honest signatures x digest variants, signatures constructed around nonce points with affine x in [N,P) under the public key recovered from them, ~1000-1700 DER mutations per honest ASN.1 signature, cross acceptance of every producer, and every entropy-fault script with <= 1/2 deviations for key generation and the signing entry points",
@@ -99,7 +99,7 @@ add("C05", 'xenum', 'exploration',
     "Two issuers of one type sharing a truncated key id: present iff one of them can sign, entry = stand-alone evaluation by the first that can, token judged only when that is the request's own key; the unknown-key-id letter uses the first byte of issuer A's id where that is free.",
     'DESIGN.md 4 C05, 9.2b')
 add("C07", "xenum", "exploration",
-    "bounded exhaustive enumeration of encoded requests to the real rate-limited issuer: every single-bit change, every truncation and 5 extensions of honest and of hand-crafted consistent requests, plus hand-crafted requests (go-hpke + crypto/ecdsa, independent of the client) for each rejecting class, incl. correctly framed and signed encrypted parts of 0..49 bytes, each also offered to an issuer that has just served an honest request",
+    "bounded exhaustive enumeration of encoded requests to the real rate-limited issuer: every single-bit change, every truncation and 5 extensions of honest and of hand-crafted consistent requests, plus hand-crafted requests (go-hpke + crypto/ecdsa, independent of the client) for each rejecting class, incl. correctly framed and signed encrypted parts of 0..49 bytes, each also offered to an issuer that has just served an honest request (from the same caller buffer), plus accepted requests replayed under another request key or at another issuer",
     "Honest and consistent requests are accepted and finalize to valid tokens; each of ~4160 single-bit variants, 520 truncations, extensions, unregistered/similar origins, encryption to another name key (with and without the victim's id), associated data bound to another request key, signatures by another key / over other contents / missing / short are answered with an error and nil outputs.",
     "Expected verdicts of crafted requests follow from their construction; origin-name neighbours are a small list here (C20 enumerates them).",
     "DESIGN.md 4 C07")
@@ -111,13 +111,13 @@ add("C02", 'xenum', 'exploration',
     'DESIGN.md 4 C02, 9.2')
 
 add("C16", 'xenum+seqx', 'model_checking',
-    'exhaustive enumeration of argument placements (every byte-slice argument of 51 exported operations x spare capacity {0,1,16,64,512} x fill {00,AA,FF} in guarded buffers; every truncation of every peer message with its genuine tail lying behind it in the same buffer) every ecdsa operation taking *big.Int values or key objects on four curves with all reachable big integers compared before/after and the call repeated on the same objects; plus explicit-state enumeration of call histories (depth 3/4 over 10 operations) on one request state / issuer per token type with every hand-out captured and re-compared after every step',
+    'exhaustive enumeration of argument placements (every byte-slice argument of 51 exported operations x spare capacity {0,1,16,64,512} x fill {00,AA,FF} in guarded buffers; every truncation of every peer message with its genuine tail lying behind it in the same buffer) the caller's request / nonce / blind lists after later calls; every ecdsa operation taking *big.Int values or key objects (incl. blinding keys above the group order) on four curves with all reachable big integers compared before/after and the call repeated on the same objects; plus explicit-state enumeration of call histories (depth 3/4 over 10 operations) on one request state / issuer per token type with every hand-out captured and re-compared after every step',
     'No operation changes its argument, the spare capacity behind it or the guard bytes, and its result is independent of capacity, fill and of what lies behind a truncated message; request fields, encodings, issuer responses and tokens handed out earlier keep their bytes across finalize (valid and invalid), evaluate, verify, marshal and re-use of the request object as a decoder; overwriting returned tokens does not disturb later calls.',
     'Operations are exercised with honest argument values; memory reachable only through unexported fields is observed indirectly (through later results).',
     'DESIGN.md 4 C16, 9.2b')
 
 add("C17", 'vsched', 'model_checking',
-    'stateless schedule exploration with a pre-emption bound (quick: bound 1, coarse granularity; thorough: fine granularity bound 1, then coarse granularity bound 2) of 30 scenarios (2-3 goroutines, one call each on one shared issuer, attester or key: freshly constructed, with a sequential history of rejected and served requests, or built over a key object its owner has already used) over pat-go sources instrumented with scheduling points, executed under a cooperative scheduler that is invisible to the Go race detector, so that every explored schedule is also checked for data races by happens-before analysis',
+    'stateless schedule exploration with a pre-emption bound (quick: bound 1, coarse granularity; thorough: fine granularity bound 1, then coarse granularity bound 2) of 31 scenarios (2-3 goroutines, one call each on one shared issuer, attester or key: freshly constructed, with a sequential history of rejected and served requests, or built over a key object its owner has already used) over pat-go sources instrumented with scheduling points, executed under a cooperative scheduler that is invisible to the Go race detector, so that every explored schedule is also checked for data races by happens-before analysis',
     "For each of >10^4 distinct schedules per run: no race report on any memory (pat-go, circl, math/big, standard library), every call's result is one a sequential call could have produced (responses finalize to valid tokens, key ids / blinded keys / signatures equal the sequential ones, forged tokens rejected), no deadlock, no panic. Finds data races (lazy initialisation, in-place normalisation, memoisation, shared scratch buffers, counters, self-reordering lists) and race-free atomicity bugs (correctly locked check-then-act, CAS flag instead of sync.Once).",
     "Dependencies are atomic steps of a schedule (their races are still detected); coarse granularity = statements in tokens/ and in every function that mentions a package-level variable, function entries elsewhere; the race detector's bounded shadow history means a given race is reported in some schedules only.",
     'DESIGN.md 3.4, 4 C17, 9.2')
